@@ -1278,7 +1278,7 @@ func (p Patch) ApplyIndentWithOptions(doc []byte, indent string, options *ApplyO
 	self := newLazyNode(&raw)
 
 	var pd container
-	if doc[0] == '[' {
+	if self.nextByte() == '[' {
 		pd = &partialArray{
 			self: self,
 		}
